@@ -39,11 +39,21 @@ ENV_KEY = '__env_consulted__'
 DB_DIR_KEY = '__database_data_dir__'
 
 
-def effective(program, base, override=None, instance=None, keys=(), environ=None):
+SERVICE_KEY = '__service_built__'
+FROZEN_KEY = '__frozen__'
+
+
+def effective(program, base, override=None, instance=None, keys=(), environ=None, sections=None, build_service=False):
   """environ: extra environment variables for the start-up.  The result also lists (under ENV_KEY) every environment
   variable name the start-up looked up, so that a caller can explore the value alphabet of the ones it cares about."""
   req = {'program': program, 'base': base, 'override': override, 'instance': instance, 'keys': list(keys),
          'repo': env.REPO, 'environ': environ or {}}
+  if sections:
+    req['sections'] = sections          # other sections of the same carbon.conf, e.g. {'cache': {...}} for an aggregator
+  if build_service:
+    # go on as twistd does: after the options, the daemon's service tree is built (carbon.service.create*Service); the
+    # values are read AFTER that, together with what the modules imported on the way froze at import (FROZEN_KEY)
+    req['build_service'] = True
   blob = json.dumps(req, sort_keys=True)
   k = hashlib.sha1(blob.encode()).hexdigest()[:16]
   if k in _mem:
@@ -52,6 +62,19 @@ def effective(program, base, override=None, instance=None, keys=(), environ=None
   root = os.environ['VERIF_SCRATCH_ROOT']
   path = os.path.join(root, 'daemonconf-%s.json' % k)
   if not os.path.exists(path):
+    _compute(path, blob)
+  out = {kk: (_dec(v) if kk not in (ENV_KEY, DB_DIR_KEY, FROZEN_KEY) else v) for kk, v in json.load(open(path)).items()}
+  _mem[k] = out
+  return out
+
+
+def _compute(path, blob):
+  """One start-up subprocess per distinct request and run: workers that want the same answer wait for the first one."""
+  import fcntl
+  with open(path + '.lock', 'w') as lk:
+    fcntl.flock(lk, fcntl.LOCK_EX)
+    if os.path.exists(path):
+      return
     e = dict(os.environ, PYTHONDONTWRITEBYTECODE='1', PYTHONHASHSEED='0')
     lines, last = [], ''
     for attempt in range(2):      # one retry: the child only reads files and prints one line
@@ -72,9 +95,6 @@ def effective(program, base, override=None, instance=None, keys=(), environ=None
     with open(tmp, 'w') as f:
       f.write(lines[-1][7:])
     os.replace(tmp, path)
-  out = {kk: (_dec(v) if kk not in (ENV_KEY, DB_DIR_KEY) else v) for kk, v in json.load(open(path)).items()}
-  _mem[k] = out
-  return out
 
 
 CACHE_KEYS = ('MAX_CACHE_SIZE', 'USE_FLOW_CONTROL', 'CACHE_SIZE_LOW_WATERMARK', 'CACHE_SIZE_HARD_MAX')
@@ -105,8 +125,8 @@ def cache_conf(max_cache, flow, variant='base'):
 def cache_limits(max_cache, flow, variant='base'):
   base, override, instance = cache_conf(max_cache, flow, variant)
   out = dict(effective('carbon-cache', base, override, instance, CACHE_KEYS))
-  out.pop(ENV_KEY, None)
-  out.pop(DB_DIR_KEY, None)
+  for k in (ENV_KEY, DB_DIR_KEY, SERVICE_KEY, FROZEN_KEY):
+    out.pop(k, None)
   return out
 
 
@@ -161,6 +181,9 @@ def _child():
     if req['override'] is not None:
       lines += ['', '[%s:%s]' % (section, req['instance'])]
       lines += ['%s = %s' % kv for kv in sorted(req['override'].items())]
+    for sec, kv in sorted((req.get('sections') or {}).items()):
+      lines += ['', '[%s]' % sec]
+      lines += ['%s = %s' % item for item in sorted(kv.items())]
     config = os.path.join(conf_dir, 'carbon.conf')
     with open(config, 'w') as f:
       f.write('\n'.join(lines) + '\n')
@@ -168,6 +191,11 @@ def _child():
       f.write(env.MIN_SCHEMAS)
     for name in ('aggregation-rules.conf', 'rewrite-rules.conf', 'relay-rules.conf'):
       open(os.path.join(conf_dir, name), 'w').close()
+    dests = [d.strip() for d in str(req['base'].get('DESTINATIONS', '')).split(',') if d.strip()]
+    if dests:
+      # rule-based relaying (the default method) refuses to start without a default rule
+      with open(os.path.join(conf_dir, 'relay-rules.conf'), 'w') as f:
+        f.write('[default]\ndefault = true\ndestinations = %s\n' % dests[0])
     os.environ['GRAPHITE_ROOT'] = root
     os.environ.pop('GRAPHITE_CONF_DIR', None)
     os.environ.pop('GRAPHITE_STORAGE_DIR', None)
@@ -223,7 +251,7 @@ def _child():
       subCommand = req['program']
 
     cls = {'carbon-cache': conf.CarbonCacheOptions, 'carbon-aggregator': conf.CarbonAggregatorOptions,
-           'carbon-relay': conf.CarbonRelayOptions}[req['program']]
+           'carbon-aggregator-cache': conf.CarbonAggregatorOptions, 'carbon-relay': conf.CarbonRelayOptions}[req['program']]
     options = cls()
     options.parent = Parent(pidfile='twistd.pid', umask=None, nodaemon=True, syslog=None)
     options['config'] = config
@@ -234,6 +262,25 @@ def _child():
     with contextlib.redirect_stdout(io.StringIO()):
       options.postOptions()
     out = {}
+    if req.get('build_service'):
+      from carbon import service
+      maker = {'carbon-cache': service.createCacheService, 'carbon-relay': service.createRelayService,
+               'carbon-aggregator': service.createAggregatorService,
+               'carbon-aggregator-cache': service.createAggregatorCacheService}[req['program']]
+      with contextlib.redirect_stdout(io.StringIO()):
+        maker(options)
+      out[SERVICE_KEY] = True
+      frozen = {}
+      cl = sys.modules.get('carbon.client')
+      if cl is not None:
+        for name in ('SEND_QUEUE_HARD_MAX', 'SEND_QUEUE_LOW_WATERMARK'):
+          frozen['client.' + name] = _enc(getattr(cl, name, MISSING))
+      wr = sys.modules.get('carbon.writer')
+      if wr is not None:
+        for name in ('UPDATE_BUCKET', 'CREATE_BUCKET'):
+          b = getattr(wr, name, MISSING)
+          frozen['writer.' + name] = b if (b is None or b == MISSING) else [_enc(b.capacity), _enc(b.fill_rate)]
+      out[FROZEN_KEY] = frozen
     keys = list(req['keys'])
     if keys == ['*']:
       # everything the start-up left in the settings object (dict entries and instance attributes)
